@@ -4,6 +4,7 @@ pub mod gen {
     include!(concat!(env!("OUT_DIR"), "/conjure/mod.rs"));
 }
 mod c04;
+mod c04m;
 mod c06l;
 mod c09;
 mod c18l;
